@@ -128,8 +128,10 @@ def gen_cases(ctx):
                 ev.append(["lookup_frame", rng2.choice([0o1, 0o3]), rng2.choice(ids)])
             elif r < 0.82:
                 ev.append(["load_json", rng2.choice(ids), rng2.randrange(8)])
-            elif r < 0.95:
+            elif r < 0.9:
                 ev.append(["rereq", rng2.randrange(3)])
+            elif r < 0.95:
+                ev.append([rng2.choice(["req_busy2", "req_busy_ack"]), rng2.choice(ids), rng2.choice([0o23, 0o123, 0o13])])
             else:
                 ev.append(["rel_addr", rng2.choice([0o1, 0o2, 0o13, 0o23, 0o5])])
         yield {"part": "seq", "events": ev, "seed": 5000 + w}
@@ -140,6 +142,8 @@ def gen_cases(ctx):
     for via in (0o23, 0o123, 0o13, 0o343, 0o51):
         for nid in (7, 200):
             yield {"part": "seq", "events": [["req", 5, 0o4444], ["req_busy", nid, via], ["req", 9, via]]}
+            for kind in ("req_busy2", "req_busy_ack"):
+                yield {"part": "seq", "events": [["req", 5, 0o4444], [kind, nid, via], ["req", 9, via], [kind, nid, via]]}
     for n in range(0, 256, 1 if ctx.tier == "thorough" else 3):
         for as_bin in (False, True):
             yield {"part": "persist", "n": n, "as_bin": as_bin, "seed": n}
@@ -225,6 +229,26 @@ def one_event(ctx, case, rig, radio, master, ref, ev, hist, fid):
             master.update()
             while master.available():
                 master.read()
+        elif ev[0] in ("req_busy2", "req_busy_ack"):
+            # like req_busy, but the other frame arrives during the master's SECOND wait (after its
+            # retry) / is followed by the NETWORK_ACK the master is waiting for
+            radio.inject_rx(2, request_frame(ev[1], ev[2], fid))
+            other = net_ref.pack_header(0o3, 0, fid + 1000, 196, 99) + bytes([200])
+            hs = [rig.world.at(node.t + 3 * W.MS, radio.inject_rx, 5, other)]
+            if ev[0] == "req_busy2":
+                other2 = net_ref.pack_header(0o3, 0, fid + 1001, 196, 98) + bytes([201])
+                hs.append(rig.world.at(node.t + 11 * W.MS, radio.inject_rx, 5, other2))
+            else:
+                hs.append(rig.world.at(node.t + 4500 * W.US, radio.inject_rx, 1,
+                                       net_ref.pack_header(0, 0, fid, 193, 77)))
+            master.update()
+            for h in hs:
+                rig.world.cancel(h)
+            for _ in range(3):
+                if not radio.rx_fifo:
+                    break
+                master.update()
+            ctx.count("requests_with_frames_in_the_%s" % ("second_wait" if ev[0] == "req_busy2" else "wait_then_acked"))
         elif ev[0] == "req_busy":
             # a relayed request while another frame arrives during the master's NETWORK_ACK wait
             radio.inject_rx(2, request_frame(ev[1], ev[2], fid))
@@ -268,7 +292,7 @@ def one_event(ctx, case, rig, radio, master, ref, ev, hist, fid):
                           "(history %r)" % (ev[0], {k: oct(v) for k, v in before.items()},
                                             {k: oct(v) for k, v in table.items()}, len(stray), hist[-8:]), case)
             return False
-    if ev[0] in ("req", "req_busy"):
+    if ev[0] in ("req", "req_busy", "req_busy2", "req_busy_ack"):
         nid, via = ev[1], ev[2]
         replies = [p for p in rig.air.log[air0:] if p.kind == "data" and p.src is radio
                    and len(p.payload) >= 10 and p.payload[6] == 128 and p.attempt == 0]
@@ -319,7 +343,7 @@ def one_event(ctx, case, rig, radio, master, ref, ev, hist, fid):
                                                                     [oct(a) for a in slots14][:3] or oct(own),
                                                                     {k: oct(v) for k, v in before.items()}, hist[-8:]), case)
                 return False
-    if ev[0] == "req_busy":
+    if ev[0] in ("req_busy", "req_busy2", "req_busy_ack"):
         extra = {k: v for k, v in table.items() if k not in before and k != ev[1]}
         if extra:
             ctx.violation("lease-under-foreign-id", "request of ID %d via %s while another frame arrived: the "
